@@ -50,8 +50,14 @@ use shred::{Fetch, FetchMut, ResourceId, World};
 use crate::rng::mix;
 
 pub const NTYPES: usize = 8;
+/// dynamic ids used by the ordinary generators (the "standard" 32 slots)
 pub const NDYN: usize = 4;
-pub const NSLOTS: usize = NTYPES * NDYN;
+/// dynamic ids that exist at all (workloads that need > 64 distinct resources use them)
+pub const NDYN_EXT: usize = 16;
+/// number of standard slots
+pub const NSTD: usize = NTYPES * NDYN;
+/// capacity of arrays indexed by `Slot.0`
+pub const NSLOTS: usize = NTYPES * NDYN_EXT;
 
 /// slot = (type index, dynamic id)
 #[derive(Clone, Copy, PartialEq, Eq, Hash, PartialOrd, Ord, Debug)]
@@ -59,20 +65,28 @@ pub struct Slot(pub u8);
 
 impl Slot {
     pub fn new(ty: usize, dy: usize) -> Slot {
-        debug_assert!(ty < NTYPES && dy < NDYN);
-        Slot((ty * NDYN + dy) as u8)
+        debug_assert!(ty < NTYPES && dy < NDYN_EXT);
+        Slot((ty * NDYN_EXT + dy) as u8)
     }
     pub fn ty(self) -> usize {
-        self.0 as usize / NDYN
+        self.0 as usize / NDYN_EXT
     }
     pub fn dy(self) -> usize {
-        self.0 as usize % NDYN
+        self.0 as usize % NDYN_EXT
     }
     pub fn rid(self) -> ResourceId {
         with_ty!(self.ty(), T => ResourceId::new_with_dynamic_id::<T>(self.dy() as u64))
     }
+    /// the 32 standard slots
     pub fn all() -> impl Iterator<Item = Slot> {
-        (0..NSLOTS as u8).map(Slot)
+        (0..NTYPES).flat_map(|t| (0..NDYN).map(move |d| Slot::new(t, d)))
+    }
+    /// all 128 slots (8 types x 16 dynamic ids)
+    pub fn all_ext() -> impl Iterator<Item = Slot> {
+        (0..NTYPES).flat_map(|t| (0..NDYN_EXT).map(move |d| Slot::new(t, d)))
+    }
+    pub fn is_std(self) -> bool {
+        self.dy() < NDYN
     }
     pub fn label(self) -> String {
         format!("R{}#{}", self.ty(), self.dy())
